@@ -20,6 +20,9 @@ CHECKS = {
  "C06": ("exploration", "property-based testing plus corpus sweep: closure checker (validity predicate over every exported package) and acceptance by from_proto and the vlsirtools netlisters",
          "Every package obtained from generated designs, the examples and built-in generators over their parameter ranges, and PDK-compiled designs is checked for closure (names, definition order, targets, port sets, bit ranges, widths) and must be accepted by from_proto and the spice and spectre netlisters.",
          "Closure rules read from the VLSIR schema; netlisters are not run on packages that reference hdl21.primitives (they reject those by design)."),
+ "C09": ("exploration", "property-based testing of generator memoisation and naming over generated param-class shapes and adversarial value pairs, with a body call counter and cross-process name comparison",
+         "For generated param-class shapes and pairs of value assignments (biased to near-collisions) fresh generators are declared in pristine processes: equal parameters must give the identical module with one body run (also after the result was dropped and garbage collected), unequal ones distinct modules with distinct names; a parent instantiating both must export; names must not change after first return nor differ between three process histories.",
+         "Parameter equality = Python equality of validated instances cross-checked with exact values; Module/Generator-valued parameters come from pools of distinctly named objects; sampled."),
  "C10": ("exploration", "exhaustive enumeration of a bounded family of bundle-definition trees plus Hypothesis-generated deeper trees; oracle = reference flattener written from the statement",
          "For every tree of the enumerated family and sampled deeper/wider trees the exported module's ports (name, width, direction) and internal signals are compared with a reference flattener (names by path, parity of flips for declared ports, role source/sink rule, plain leaves undirected, internal instances -> signals); bundle connections are checked with the C01 isomorphism oracle.",
          "Trusts the reference flattener's reading of the statement (role directions not flipped); enumerated family complete only within its stated bounds."),
